@@ -597,6 +597,7 @@ def snapshot(ad: Adapter, l, fresh=False):
         # what the children say right now (the BalancingLearner caches their losses)
         s["fresh_real"] = guarded(lambda: max(c.loss(real=True) for c in l.learners))
         s["fresh_exp"] = guarded(lambda: max(c.loss(real=False) for c in l.learners))
+        s["child_exp"] = s["fresh_exp"]         # what the children themselves answer (before any cache of theirs is dropped)
     if fresh and base_kind(ad.spec) == "L2D":
         for b in _l2d_leaves(ad, l):
             b._ip_combined = None
